@@ -40,6 +40,12 @@ def run(ctx):
         p = ctx.path(name + ".ndjson")
         vlib.write_ndjson(p, [{"text": c["text"], "ro": c["ro"]} for c in (cases if name == "corpus" or not q else cases[::3])])
         files.append(p)
+    # the token corpus in its contexts (thorough: plus the 500 spliced tokens): the slice and the stream scanners are
+    # separate code and must delimit every token alike
+    tc = datums.token_cases(big=not q)
+    p = ctx.path("tokens.ndjson")
+    vlib.write_ndjson(p, tc[::7] if q else tc[::5])
+    files.append(p)
     out, tracep = common.harness_json(ctx, "c06", {"cases_files": files, "seed": ctx.seed, "random": 500 if q else 20000,
                                                     "reader_sessions": 4000 if q else 200000, "trace_stride": 3 if q else 40}, timeout=7200)
     tres, events = _report(ctx, out, tracep)
